@@ -161,6 +161,46 @@ def check(env, rep, tier):
             inner = [h for h in info.loops if info.parent_loop.get(h) is not None]
             linkfmt.check_scanner(prog, rep, bodies[nm], inner, tag, site(bodies[nm]))
         linkfmt.check_unquote(prog, rep, bodies[U], site(bodies[U]))
+        # ---- C16.7 integer attributes: the number is written by core's Display for the integer itself
+        import provenance
+        WU = find_body(prog, "link_format::LinkAttributeWrite::<'_, '_, T>::attr_u32")
+        W16 = find_body(prog, "link_format::LinkAttributeWrite::<'_, '_, T>::attr_u16")
+        if WU is None or W16 is None:
+            rep.missing("C16.7", "attr_u32 / attr_u16")
+        else:
+            calls = [bb["term"] for bb in WU["blocks"] if bb["term"]["k"] == "call" and not bb["cleanup"]]
+            byp = {}
+            for t in calls:
+                byp.setdefault(provenance.callee_path(t), []).append(t)
+            disp = byp.get("core::fmt::rt::Argument::<'_>::new_display", [])
+            news = byp.get("core::fmt::Arguments::<'a>::new", [])
+            wf = byp.get("core::fmt::Write::write_fmt", [])
+            ok = len(disp) == 1 and len(news) == 1 and len(wf) == 1 and len(byp.get(WK, [])) == 1
+            ok = ok and not any(p_.endswith("::write_char") or p_.endswith("::write_str") for p_ in byp)
+            why = "calls: %s" % sorted(byp)
+            if ok:
+                steps, term = provenance.trace(WU, disp[0]["args"][0])
+                gty = [prog.types[g_]["s"] for g_ in disp[0]["callee"].get("gargs", [])]
+                tsteps, tterm = provenance.trace(WU, wf[0]["args"][1])
+                tmpl = news[0]["args"][0]
+                t2s, t2t = provenance.trace(WU, tmpl)
+                tmpl_ty = prog.types[t2t[1]]["s"] if t2t[0] == "const" and t2t[1] is not None else "?"
+                ok = (not steps and term == ("arg", 3, "") and gty == ["u32"]
+                      and [x[1] for x in tsteps if x[0] == "call"] == ["core::fmt::Arguments::<'a>::new"]
+                      and "[u8; 2" in tmpl_ty)
+                why = "displayed operand %s of type %s, template %s" % (term, gty, tmpl_ty)
+            rep.ob("C16.7", "attr_u32|display", ok,
+                   "attr_u32 does not write its number as write!(sink, \"{}\", value) - core's decimal Display of the u32 itself, nothing "
+                   "around it (%s); a hand-rolled conversion is not decided and is reported (fail closed)" % why, site(WU),
+                   sample={"rule": "C16.7", "display_calls": len(disp)})
+            c16 = [bb["term"] for bb in W16["blocks"] if bb["term"]["k"] == "call" and not bb["cleanup"]]
+            ok = len(c16) == 1 and provenance.callee_path(c16[0]) == WU["path"] and len(c16[0]["args"]) == 3
+            if ok:
+                steps, term = provenance.trace(W16, c16[0]["args"][2])
+                ok = term == ("arg", 3, "") and steps in ([("cast", "IntToInt")], []) 
+                ks, kt = provenance.trace(W16, c16[0]["args"][1])
+                ok = ok and kt[:2] == ("arg", 2) and not [x for x in ks if x[0] == "call"]
+            rep.ob("C16.7", "attr_u16|delegates", ok, "attr_u16 does not hand (key, value widened to u32) to attr_u32", site(W16))
         acalls = [(bb["term"].get("resolved") or bb["term"].get("callee") or {}) for bb in bodies[A]["blocks"] if bb["term"]["k"] == "call" and not bb["cleanup"]]
         eq_find = False
         for bb in bodies[A]["blocks"]:
